@@ -195,6 +195,7 @@ static std::string cmd_disx(const std::vector<std::string> &args)
 //     fork per crash and not a restart of the harness; after DISXB_CRASH_CAP crashes the rest of [from, to) is
 //     reported as unexplored.
 #include <sys/wait.h>
+#include <set>
 #define DISXB_CRASH_CAP 8
 struct DisxbShared
 {
@@ -319,6 +320,218 @@ static std::string cmd_disxb(const std::vector<std::string> &args)
 }
 
 
+// Two-pass assembly of ONE statement at <addr>, exactly the path of `asm1` (cmd_isa.h).
+// returns 0 and the bytes when they form one run that starts at addr, 1 when the assembly succeeded with
+// another image (nothing, padding, several runs), -1 when a pass failed or an "Error" line was printed.
+static int isa_asm_text(CpuList *cpu, uint32_t addr, const std::string &stmt, std::string &bytes)
+{
+  char head[96];
+  snprintf(head, sizeof(head), ".%s\n.org 0x%x\n", cpu->name, addr / (cpu->bytes_per_address ? cpu->bytes_per_address : 1));
+  std::string source = std::string(head) + stmt + "\n";
+  AsmContext *ctx = new AsmContext();
+  ctx->quiet_output = 1;
+  tokens_open_buffer(ctx, source.c_str());
+  ctx->tokens.filename = "asm1";
+  ctx->init();
+  int error_flag = ctx->assemble();
+  do
+  {
+    if (error_flag == 0 && ctx->link() != 0) { error_flag = 1; }
+    if (error_flag != 0) { break; }
+    ctx->symbols.lock();
+    ctx->symbols.scope_reset();
+    ctx->pass = 2;
+    ctx->init();
+    error_flag = ctx->assemble();
+    if (error_flag != 0) { break; }
+    if (ctx->link() != 0) { error_flag = 1; break; }
+  } while (0);
+  std::string printed = capture_take();
+  int rc = -1;
+  bytes.clear();
+  if (error_flag == 0 && count_errors(printed) == 0)
+  {
+    // every byte whose debug marker is not DL_EMPTY (what dump_image of cmd_prog.h lists), found by a scan that
+    // skips the empty markers (memset to -1) two at a time
+    std::vector<std::pair<uint64_t, uint8_t> > img;
+    for (MemoryPage *pg = ctx->memory.pages; pg != nullptr; pg = pg->next)
+    {
+      for (uint32_t o = 0; o < PAGE_SIZE; o += 2)
+      {
+        uint64_t two;
+        memcpy(&two, &pg->debug_line[o], sizeof(two));
+        if (two == ~(uint64_t)0) { continue; }
+        for (uint32_t k = o; k < o + 2; k++)
+        {
+          if (pg->debug_line[k] != DL_EMPTY) { img.push_back(std::make_pair((uint64_t)pg->address + k, pg->bin[k])); }
+        }
+      }
+    }
+    std::sort(img.begin(), img.end());
+    rc = img.empty() || img[0].first != addr ? 1 : 0;
+    for (size_t i = 0; rc == 0 && i < img.size(); i++)
+    {
+      if (img[i].first != (uint64_t)addr + i) { rc = 1; }
+    }
+    if (rc == 0)
+    {
+      for (size_t i = 0; i < img.size(); i++) { bytes.push_back((char)img[i].second); }
+    }
+  }
+  delete ctx;
+  return rc;
+}
+
+// rtxb <cpu> <addr hex> <tail hex> <from> <to> <off> <k>
+//     decode -> encode -> decode over 16-bit patterns (same byte strings as disxb): the instruction at <addr> is
+//     disassembled (text T, length n); every distinct instruction bytes[0..n) whose text has no '?' is assembled
+//     at <addr> through the path of asm1; when the assembler accepts T with bytes B' != bytes[0..n), B' (followed
+//     by the bytes that followed the instruction) is disassembled again (text T').  Answer:
+//       n=<patterns> uniq=<instructions assembled> acc=<accepted> same=<same bytes> more=<records dropped>
+//       unexplored=<n> rec=<p,hex T,hex B',hex T'|crash|hang;...>
+//     Only the cases with other bytes are returned (the caller compares T and T' after numeric normalisation).
+//     k > 0 limits the work to the first k instructions of every SHAPE (text with each number replaced by '#') in
+//     [from, to), in pattern order; k = 0 takes every distinct instruction.  The k-limited set is a subset of the
+//     unlimited one.  Runs in a forked child like disxb (a hang costs 5 s; after 8 crashes/hangs the rest of the
+//     range is reported as unexplored).
+struct RtxbShared
+{
+  int cur, count, uniq, acc, same, more, reclen;
+  char rec[1 << 20];
+};
+
+static void rtxb_rec(RtxbShared *sh, const std::string &r)
+{
+  if (sh->reclen + (int)r.size() + 2 >= (int)sizeof(sh->rec)) { sh->more++; return; }
+  if (sh->reclen != 0) { sh->rec[sh->reclen++] = ';'; }
+  memcpy(sh->rec + sh->reclen, r.data(), r.size());
+  sh->reclen += (int)r.size();
+}
+
+// text with every number (a token that starts with a digit or '$'/'#'-prefixed hex and is not part of an identifier)
+// replaced by '#'
+static std::string rtxb_shape(const char *t)
+{
+  std::string out;
+  for (size_t i = 0; t[i] != 0; )
+  {
+    unsigned char c = (unsigned char)t[i];
+    bool ident_before = i > 0 && (isalnum((unsigned char)t[i - 1]) || t[i - 1] == '_' || t[i - 1] == '.');
+    if (isdigit(c) && !ident_before)
+    {
+      while (isalnum((unsigned char)t[i])) { i++; }
+      out += '#';
+      continue;
+    }
+    out += (char)c;
+    i++;
+  }
+  return out;
+}
+
+static void rtxb_child(RtxbShared *sh, CpuList *cpu, disasm_one_t f, uint32_t addr, const std::string &tail,
+                       size_t off, int from, int to, int k)
+{
+  std::map<std::string, int> shapes;
+  const int size = 128;
+  const int total = 2 + (int)tail.size();
+  char *text1 = (char *)malloc(size);
+  char *text2 = (char *)malloc(size);
+  Memory *memory = new Memory();
+  memory->endian = cpu->default_endian;
+  std::set<std::string> seen;
+  signal(SIGALRM, isa_alarm);
+  for (int p = from; p < to; p++)
+  {
+    sh->cur = p;
+    std::string bytes = tail.substr(0, off);
+    bytes += (char)(p >> 8);
+    bytes += (char)(p & 0xff);
+    bytes += tail.substr(off);
+    for (int i = 0; i < total; i++) { memory->write8(addr + i, (uint8_t)bytes[i]); }
+    memset(text1, 0x55, size);
+    int c0 = 0, c1 = 0;
+    alarm(5);
+    int len1 = f(memory, addr, text1, size, cpu->flags, &c0, &c1);
+    sh->count++;
+    if (len1 <= 0 || len1 > total || memchr(text1, 0, size) == NULL) { alarm(0); continue; }   // C08's business
+    if (text1[0] == 0 || strchr(text1, '?') != NULL) { alarm(0); continue; }
+    std::string key = bytes.substr(0, len1);
+    if (!seen.insert(key).second) { alarm(0); continue; }
+    if (k > 0 && ++shapes[rtxb_shape(text1)] > k) { alarm(0); continue; }
+    sh->uniq++;
+    std::string b2;
+    int rc = isa_asm_text(cpu, addr, text1, b2);
+    if (rc != 0) { alarm(0); continue; }
+    sh->acc++;
+    if (b2 == key) { sh->same++; alarm(0); continue; }
+    std::string after = b2 + bytes.substr(len1);
+    for (size_t i = 0; i < after.size(); i++) { memory->write8(addr + i, (uint8_t)after[i]); }
+    memset(text2, 0x55, size);
+    f(memory, addr, text2, size, cpu->flags, &c0, &c1);
+    alarm(0);
+    // restore what the longer image may have written behind the pattern bytes
+    for (size_t i = total; i < after.size(); i++) { memory->write8(addr + i, 0); }
+    char pb[16];
+    snprintf(pb, sizeof(pb), "%04x,", p);
+    std::string t2 = memchr(text2, 0, size) == NULL ? std::string("") : std::string(text2);
+    rtxb_rec(sh, std::string(pb) + tohex(std::string(text1)) + "," + tohex(b2) + "," + tohex(t2));
+  }
+  sh->cur = to;
+}
+
+static std::string cmd_rtxb(const std::vector<std::string> &args)
+{
+  if (args.size() != 7) { return "bad-op"; }
+  CpuList *cpu = isa_find_cpu(args[0]);
+  if (cpu == NULL) { return "bad-op"; }
+  disasm_one_t f = isa_all_find(cpu);
+  if (f == NULL) { return "bad-op"; }
+  uint32_t addr = (uint32_t)strtoul(args[1].c_str(), NULL, 16);
+  std::string tail = unhex(args[2]);
+  int from = atoi(args[3].c_str()), to = atoi(args[4].c_str());
+  size_t off = (size_t)atoi(args[5].c_str());
+  int k = atoi(args[6].c_str());
+  if (off > tail.size()) { return "bad-op"; }
+  RtxbShared *sh = (RtxbShared *)mmap(NULL, sizeof(RtxbShared), PROT_READ | PROT_WRITE, MAP_SHARED | MAP_ANONYMOUS, -1, 0);
+  if (sh == MAP_FAILED) { return "bad-op"; }
+  sh->cur = from; sh->count = sh->uniq = sh->acc = sh->same = sh->more = sh->reclen = 0;
+  int crashes = 0, unexplored = 0, next = from;
+  while (next < to)
+  {
+    fflush(stdout);
+    fflush(ans);
+    pid_t pid = fork();
+    if (pid < 0) { munmap(sh, sizeof(RtxbShared)); return "bad-op"; }
+    if (pid == 0)
+    {
+      int devnull = open("/dev/null", O_WRONLY);
+      if (devnull >= 0) { dup2(devnull, 2); }
+      rtxb_child(sh, cpu, f, addr, tail, off, next, to, k);
+      _exit(0);
+    }
+    int status = 0;
+    waitpid(pid, &status, 0);
+    if (WIFEXITED(status) && WEXITSTATUS(status) == 0 && sh->cur >= to) { break; }
+    int p = sh->cur;
+    if (p < next || p >= to) { p = next; }
+    char pb[32];
+    snprintf(pb, sizeof(pb), "%04x,%s", p, WIFEXITED(status) && WEXITSTATUS(status) == 97 ? "hang" : "crash");
+    rtxb_rec(sh, pb);
+    crashes++;
+    next = p + 1;
+    if (crashes >= DISXB_CRASH_CAP) { unexplored = to - next; break; }
+  }
+  capture_take();
+  char head[160];
+  snprintf(head, sizeof(head), "n=%d uniq=%d acc=%d same=%d more=%d unexplored=%d rec=", sh->count, sh->uniq, sh->acc,
+           sh->same, sh->more, unexplored);
+  std::string out = head + (sh->reclen == 0 ? std::string("-") : std::string(sh->rec, sh->reclen));
+  munmap(sh, sizeof(RtxbShared));
+  return out;
+}
+
+
 // walkx <cpu> <start hex> <end hex> <hex bytes>
 //     like `walk` (real disasm_range of cpu_list with stdout captured), but format-agnostic: for every printed line
 //     that has a ':' within its first 24 characters the text before that ':' is returned (hex encoded, comma
@@ -378,6 +591,7 @@ static void register_isa_all()
   handlers["cpus"] = cmd_cpus;
   handlers["disxb"] = cmd_disxb;
   handlers["walkx"] = cmd_walkx;
+  handlers["rtxb"] = cmd_rtxb;
 }
 
 #endif
